@@ -222,3 +222,43 @@ def _intfloat(j):
     if isinstance(j, list):
         return [_intfloat(v) for v in j]
     return j
+
+
+class ExampleOrderJudge(Judge):
+    """C11: the computed examples of a schema do not depend on the order of its definitions or of its files."""
+
+    def __init__(self, params):
+        super().__init__(params)
+        self.done = set()
+
+    def on_vec(self, tag, obj):
+        if tag != 'VEC' or obj.get('mode') != 'example' or obj['slot'] in self.done:
+            return
+        from wire import norm_abs
+        from stone.frontend.frontend import specs_to_ir
+        self.done.add(obj['slot'])
+        obj = norm_abs(obj)
+        self.n += 1
+        outs = []
+        layouts = []
+        for rev_defs in (False, True):
+            for rev_files in (False, True):
+                specs = render_schema(obj['schema'], examples=obj['examples'], reverse_defs=rev_defs)
+                if rev_files:
+                    specs = list(reversed(specs))
+                layouts.append(specs)
+                try:
+                    api = specs_to_ir([tuple(x) for x in specs])
+                    outs.append(repr(sorted((n.name, d.name, sorted((k, json.dumps(v.value, sort_keys=True)) for k, v in d.get_examples().items()))
+                                            for n in api.namespaces.values() for d in n.data_types)))
+                except Exception as e:
+                    outs.append('%s: %s' % (type(e).__name__, str(e)[:120]))
+        self.judged += 1
+        self.count('example_layouts', len(outs))
+        if self.judged == 1:
+            self.sample({'slot': obj['slot'], 'layouts': 4})
+        for i in range(1, len(outs)):
+            if outs[i] != outs[0]:
+                self.violation('example_order', 'computed examples depend on the order of definitions / files (slot type %s): %s ... vs %s ...'
+                               % (obj['slot'], outs[0][:160], outs[i][:160]), {'vector': {'slot': obj['slot']}, 'specs': layouts[i], 'other_specs': layouts[0]})
+                break
